@@ -77,6 +77,8 @@ pub enum RefError {
     QuiescenceBudget,
     /// The unpruned tree exceeded the node budget.
     TreeBudget,
+    /// The engine's own uninterrupted search exceeds the cost cap of this tier.
+    EngineSearchTooLarge,
     EngineCrash(String),
 }
 
